@@ -402,6 +402,24 @@ def build_programs(tier):
     for c in chains(depth_a):
         add("A", c, "for_each")
     if tier == "quick":
+        # counters of stateful adapters on both sides of a nested (flat_map / flatten) loop: (stateful, nesting, stateful)
+        stateful = ["skip1", "take2", "enumerate", "skip_while", "take_while", "zip_range", "filter_map"]
+        nesting = ["flat_map", "mapflatten"]
+        for src in SOURCES:
+            if src[0] not in ("slice", "range"):
+                continue
+            for a1 in stateful:
+                c1 = Chain(src).apply(a1)
+                for nf in nesting:
+                    c2 = c1.apply(nf) if c1 is not None else None
+                    if c2 is None:
+                        continue
+                    for cons in CONSUMERS[1:]:
+                        add("B2nest", c2, cons)
+                    for a2 in stateful:
+                        c3 = c2.apply(a2)
+                        if c3 is not None:
+                            add("A3nest", c3, "for_each")
         # reversal interplay is where order bugs live: all depth-3 chains containing rev(), for the slice and range sources
         for c in chains(3):
             if len(c.names) == 3 and "rev" in c.names and c.src_name in ("slice", "range"):
@@ -507,44 +525,59 @@ def run(tier, seed, drv):
     progs, stats = build_programs(tier)
     crates, linemap = render(progs)
     cchains = build_const_programs(tier)
+    cchains_ok = Chain(SOURCES[0])
     ccrates, clinemap = render_const(cchains)
     crates.update(ccrates)
     ws = e3.write_workspace("C10", crates)
     byid = {p["id"]: p for p in progs}
 
-    # ---- phase A: which programs does rustc reject?
-    errors, seen, rc, err = e3.check_json(ws)
+    # ---- phase A: which programs does rustc reject? (iterated: errors of an early compiler phase hide later ones)
     rejected = {}   # prog id -> message
     const_rejected = {}
-    for tgt, errs in errors.items():
-        for e in errs:
-            hit = False
-            for (f, line) in e["spans"]:
-                if not f.endswith(f"{tgt}/src/main.rs"):
-                    continue
-                if tgt == "c10_const":
-                    for (ci, ii), ln in clinemap.items():
-                        if ln == line:
-                            const_rejected[(ci, ii)] = e["msg"]; hit = True
-                else:
-                    for (name, pid), (a, b) in linemap.items():
-                        if name == tgt and a <= line <= b:
-                            rejected.setdefault(pid, e["msg"]); hit = True
-            if not hit and e["msg"] and "aborting" not in e["msg"] and "could not compile" not in e["msg"]:
-                rep["machinery_errors"].append(f"unattributed compiler error in {tgt}: {e['msg'][:300]} {e['spans'][:3]}")
+    for _round in range(5):
+      errors, seen, rc, err = e3.check_json(ws)
+      new_rej = 0
+      before = (len(rejected), len(const_rejected))
+      for tgt, errs in errors.items():
+          for e in errs:
+              hit = False
+              for (f, line) in e["spans"]:
+                  if not f.endswith(f"{tgt}/src/main.rs"):
+                      continue
+                  if tgt == "c10_const":
+                      for (ci, ii), ln in clinemap.items():
+                          if ln == line:
+                              const_rejected[(ci, ii)] = e["msg"]; hit = True
+                  else:
+                      for (name, pid), (a, b) in linemap.items():
+                          if name == tgt and a <= line <= b:
+                              rejected.setdefault(pid, e["msg"]); hit = True
+              if not hit and e["msg"] and "aborting" not in e["msg"] and "could not compile" not in e["msg"]:
+                  rep["machinery_errors"].append(f"unattributed compiler error in {tgt}: {e['msg'][:300]} {e['spans'][:3]}")
+
+      if rep["machinery_errors"] or (len(rejected), len(const_rejected)) == before:
+          break
+      # rebuild the sources without what was rejected so far and look again
+      progs_r = [p for p in progs if p["id"] not in rejected]
+      crates, linemap = render(progs_r)
+      bad_ci = {ci for (ci, ii) in const_rejected}
+      cch_r = [c for i, c in enumerate(cchains) if i not in bad_ci]
+      # keep const indices stable for attribution: rejected chains are replaced by a trivially valid one
+      ccrates, clinemap = render_const([c if i not in bad_ci else cchains_ok for i, c in enumerate(cchains)])
+      crates.update(ccrates)
+      ws = e3.write_workspace("C10", crates)
     if rep["machinery_errors"]:
         return rep
     unexpected_rej = [pid for pid in rejected if byid[pid]["konst_ok"]]
     expected_rej = [pid for pid in rejected if not byid[pid]["konst_ok"]]
     not_rejected_but_expected = [p["id"] for p in progs if not p["konst_ok"] and p["id"] not in rejected]
     # rebuild without the rejected programs
+    cch2 = cchains
     if rejected or const_rejected:
         progs2 = [p for p in progs if p["id"] not in rejected]
         crates, linemap = render(progs2)
-        cch2 = cchains
-        if const_rejected:
-            bad_ci = {ci for (ci, ii) in const_rejected}
-            cch2 = [c for i, c in enumerate(cchains) if i not in bad_ci]
+        bad_ci = {ci for (ci, ii) in const_rejected}
+        cch2 = [c if i not in bad_ci else cchains_ok for i, c in enumerate(cchains)]
         ccrates, _ = render_const(cch2)
         crates.update(ccrates)
         ws = e3.write_workspace("C10", crates)
@@ -599,7 +632,9 @@ def run(tier, seed, drv):
     cknown = 0
     for r in const_results:
         if not r["ok"]:
-            c = cch2[r["c"]] if const_rejected else cchains[r["c"]]
+            c = cch2[r["c"]]
+            if any(ci == r["c"] for (ci, ii) in const_rejected):
+                continue  # placeholder standing in for a rejected chain
             if c.f7:
                 cknown += 1
                 continue
@@ -621,7 +656,7 @@ def run(tier, seed, drv):
     rep["distinct_nontrivial"] = nontrivial
     rep["distinct_outcomes"] = sum(r["outcomes"] for r in results.values())
     rep["rule"] = ("program = (source, adapter chain, consumer) generated from the method grammar; only chains whose std reference type-checks are generated (DoubleEnded/ExactSize tracked); every accepted program is executed on every input array next to the identical std chain (enumerate -> EnumInOrder, rposition -> rev().position()); a mismatch whose output equals the reverse-hoisted model while take/skip/zip precedes the reversal is finding F7, anything else (incl. an unexpected rejection by rustc) is a violation; non-trivial = programs whose output differs between inputs")
-    rep["bounds"] = f"set A: all chains of <= {dict(quick=2, thorough=3)[tier]} adapters x for_each! (quick adds every 3-adapter chain containing rev() for the slice and range sources); set B: chains of <= {dict(quick=1, thorough=2)[tier]} adapters x 14 consumers; set C: collect_const! chains of <= {dict(quick=1, thorough=2)[tier]} adapters x {len(CONST_INPUTS)} const inputs; 8 sources (incl. string::chars / string::split and nested slices for flatten), 20 adapter instances; run-time inputs: all arrays over {{{alpha}}} of length <= {maxlen} ({n_inputs})"
+    rep["bounds"] = f"set A: all chains of <= {dict(quick=2, thorough=3)[tier]} adapters x for_each! (quick adds every 3-adapter chain containing rev(), and every (stateful, flat_map|flatten, stateful) chain plus (stateful, flat_map|flatten) x every consumer, for the slice and range sources); set B: chains of <= {dict(quick=1, thorough=2)[tier]} adapters x 14 consumers; set C: collect_const! chains of <= {dict(quick=1, thorough=2)[tier]} adapters x {len(CONST_INPUTS)} const inputs; 8 sources (incl. string::chars / string::split and nested slices for flatten), 20 adapter instances; run-time inputs: all arrays over {{{alpha}}} of length <= {maxlen} ({n_inputs})"
     rep["samples"] = [p["desc"] for p in progs[:3]] + [progs[len(progs) // 2]["desc"], progs[-1]["desc"]]
     rep["nontrivial_samples"] = [byid[r["id"]]["desc"] for r in list(results.values())[:400] if r["outcomes"] > 3][:5]
     rep["extra"] = {"programs": len(progs) + len(cchains) * len(CONST_INPUTS), "rejected_by_rustc_expected": len(expected_rej), "rejected_by_rustc_unexpected": len(unexpected_rej) + len(const_rejected),
